@@ -17,6 +17,8 @@ pub const PERSON: &str = "0.0"; // placeholder, real short names are read from t
 pub struct Scenario {
     pub peers: Vec<Peer>,
     pub room: RoomHandle,
+    /// second room with the same members, used by workloads that move rows between rooms
+    pub room2: Option<RoomHandle>,
     pub t: i64,
     /// rows created through the API: (id, entity name)
     pub rows: Vec<(Uid, String)>,
@@ -36,6 +38,12 @@ pub enum Op {
     DeleteNode { peer: usize, row: usize },
     DeleteRef { peer: usize, row: usize, parent: usize },
     Tick(i64),
+    /// update that also moves the row to the other room (needs `room2`)
+    Move { peer: usize, row: usize, to_second: bool },
+    /// n rows created through the mutation stream (one recompute request at the end)
+    StreamCreate { peer: usize, n: usize },
+    /// pull of the second room
+    Pull2 { dst: usize, src: usize },
     Pull { dst: usize, src: usize, cut: Option<usize> },
     PullBoth { a: usize, b: usize },
 }
@@ -82,6 +90,7 @@ impl Scenario {
         let mut s = Self {
             peers,
             room,
+            room2: None,
             t: T0,
             rows: Vec::new(),
             log: Vec::new(),
@@ -95,6 +104,22 @@ impl Scenario {
             }
         }
         Ok(s)
+    }
+
+    /// creates the second room (same members and rights) on peer 0 and spreads it
+    pub async fn add_second_room(&mut self) -> Result<(), String> {
+        let keys: Vec<Vec<u8>> = self.peers.iter().map(|p| p.id.vkey.clone()).collect();
+        let spec = open_room_spec(&keys, &["Person", "Pet", "ns.Thing"], true);
+        let room2 = self.peers[0].create_room(&spec).await?;
+        self.tick(1);
+        for i in 1..self.peers.len() {
+            let st = pull(&self.peers[i], &self.peers[0], room2.id, PullOpts::default()).await;
+            if let Some(e) = st.error {
+                return Err(format!("second room pull failed: {}", e));
+            }
+        }
+        self.room2 = Some(room2);
+        Ok(())
     }
 
     pub fn tick(&mut self, ms: i64) {
@@ -271,6 +296,74 @@ impl Scenario {
                     Ok(_) => OpOutcome::Accepted,
                     Err(e) => OpOutcome::Refused(e),
                 }
+            }
+            Op::Move { peer, row, to_second } => {
+                if self.rows.is_empty() || self.room2.is_none() {
+                    return OpOutcome::Refused("no row".into());
+                }
+                let (id, ent) = self.rows[*row % self.rows.len()].clone();
+                let field = if ent == "ns.Thing" { "label" } else { "name" };
+                let name = self.next_name();
+                let target = if *to_second {
+                    self.room2.as_ref().unwrap().id64()
+                } else {
+                    self.room.id64()
+                };
+                let mut p = Parameters::new();
+                p.add("id", b64(&id)).unwrap();
+                p.add("name", name).unwrap();
+                p.add("room", target).unwrap();
+                let m = format!("mutate {{ {}{{ id:$id room_id:$room {}:$name }} }}", ent, field);
+                match self.peers[*peer].mutate(&m, Some(p)).await {
+                    Ok(_) => OpOutcome::Accepted,
+                    Err(e) => OpOutcome::Refused(e),
+                }
+            }
+            Op::StreamCreate { peer, n } => {
+                let (tx, mut rx) = self.peers[*peer].db.mutation_stream();
+                let mut ok = 0;
+                for _ in 0..*n {
+                    let name = self.next_name();
+                    let mut p = Parameters::new();
+                    p.add("room", room64.clone()).unwrap();
+                    p.add("name", name).unwrap();
+                    let _ = tx
+                        .send((
+                            "mutate { Person{ room_id:$room name:$name } }".to_string(),
+                            Some(p),
+                        ))
+                        .await;
+                }
+                for _ in 0..*n {
+                    if let Some(Ok(q)) = rx.recv().await {
+                        self.rows
+                            .push((q.mutate_entities[0].node_to_mutate.id, "Person".to_string()));
+                        ok += 1;
+                    }
+                }
+                drop(tx);
+                // the stream task requests the recompute after the sender is dropped
+                tokio::task::yield_now().await;
+                tokio::time::sleep(std::time::Duration::from_millis(5)).await;
+                self.peers[*peer].barrier().await;
+                if ok == *n {
+                    OpOutcome::Accepted
+                } else {
+                    OpOutcome::Refused(format!("{} of {} stream mutations acknowledged", ok, n))
+                }
+            }
+            Op::Pull2 { dst, src } => {
+                if dst == src || self.room2.is_none() {
+                    return OpOutcome::Refused("self pull".into());
+                }
+                let st = pull(
+                    &self.peers[*dst],
+                    &self.peers[*src],
+                    self.room2.as_ref().unwrap().id,
+                    PullOpts::default(),
+                )
+                .await;
+                OpOutcome::Pulled(vec![st])
             }
             Op::Pull { dst, src, cut } => {
                 if dst == src {
